@@ -9,6 +9,9 @@ x all 27 combinations of edits to (ctrl, qfrc_applied, xfrc_applied):
   C  the same for mj_inverseSkip after a full mj_inverse (edits: qacc, xfrc_applied; qvel for POS)
   D  mj_forward leaves every component of the integration state bit-identical
   E  with warm start disabled, forward;forward == forward on every field of mjData
+D and E additionally range over the norm class of every quaternion of the state (ball / free joints in qpos,
+mocap_quat): {unit, non-unit (x1.5 / x0.5 alternating), zero} = the three branches of mju_normalize4, because the
+position stage normalises quaternions for its own use and must do so on copies, never in the caller's state.
 Every comparison is over ALL of mjData (buffers, arena arrays, scalars, solver statistics, stack
 pointers; timers/maxuse/threadpool/plugin_data ignored).
 """
@@ -33,7 +36,9 @@ META = dict(
          "and xfrc_applied, the split/staged call sequence and the monolithic call are run on separately built mjData objects "
          "and compared bit-for-bit on every field. The position/velocity stages of the split run see different (older) "
          "inputs than the monolithic run, so any quantity computed in the wrong stage, any lazy-evaluation flag surviving a "
-         "skip, and any state write in mj_forward shows as a difference.",
+         "skip, and any state write in mj_forward shows as a difference. For the state-write and idempotence oracles (D, E) the "
+         "quaternions of the state are also supplied non-normalised and zero (what a user, a perturbation or a finite "
+         "difference writes), since only then an in-place normalisation of qpos / mocap_quat is visible.",
     note="Sleep is outside this lattice (the documentation states that sleeping breaks the stage assumptions). RK4 is used for "
          "oracles B-E only (mj_step2 defaults to Euler, documented). The reference of a skip call with skipsensor=1 is the "
          "full call with skipsensor=1. Warm-start disabling is toggled in mjModel.opt.disableflags at run time.",
@@ -110,6 +115,49 @@ def new_state(fac, inp, q, v):
     return d
 
 
+# Quaternion-norm classes of the state handed to mj_forward (oracles D, E).  The three levels are the three branches of
+# mju_normalize4: already unit (no-op), non-unit (rescaled), shorter than mjMINVAL (replaced by the identity).  The
+# position stage is documented to normalise quaternions for its own use; the caller's qpos / mocap_quat are state and
+# must come back bit-identical whatever their norm (user-written, perturbed or finite-differenced quaternions).
+QUAT_NORMS = ("unit", "nonunit", "zero")
+DIAG_EDITS = ((0, 0, 0), (1, 1, 1), (2, 2, 2))
+
+
+def quat_slots(m):
+    """[(array name, start index)] of every quaternion of the integration state: ball / free joints in qpos, mocap_quat."""
+    out = []
+    for t, a in zip(list(m.jnt_type), list(m.jnt_qposadr)):
+        if t == 1:
+            out.append(("qpos", int(a)))
+        elif t == 0:
+            out.append(("qpos", int(a) + 3))
+    out += [("mocap_quat", 4 * i) for i in range(int(m.nmocap))]
+    return out
+
+
+def denormalise(d, slots, level):
+    """Scale every state quaternion: 'nonunit' alternates the factors 1.5 / 0.5 over the quaternions, 'zero' clears them."""
+    if level == "unit":
+        return
+    for k, (name, a) in enumerate(slots):
+        arr = d.qpos if name == "qpos" else d.mocap_quat.reshape(-1)
+        arr[a:a + 4] = arr[a:a + 4] * (0.0 if level == "zero" else (1.5, 0.5)[k % 2])
+
+
+def state_component(lib, m, idx):
+    """Name of the mjtState component that holds element idx of the INTEGRATION state vector."""
+    off = 0
+    for bit, name in enumerate(E_STATE_ORDER):
+        n = lib.mj_stateSize(m, 1 << bit)
+        if idx < off + n:
+            return "%s[%d]" % (name, idx - off)
+        off += n
+    return "state[%d]" % idx
+
+
+E_STATE_ORDER = ("time", "qpos", "qvel", "act", "history", "qacc_warmstart", "ctrl", "qfrc_applied", "xfrc_applied", "eq_active",
+                 "mocap_pos", "mocap_quat", "userdata", "plugin_state")
+
 LAZY_FLAGS = ("flg_energypos", "flg_energyvel", "flg_subtreevel", "flg_rnepost")
 
 
@@ -168,6 +216,7 @@ def check_model(lib, part, job):
     fac = E.Factory(lib, m)
     inp = Inputs(m)
     nstate = lib.mj_stateSize(m, E.INTEGRATION)
+    qslots = quat_slots(m)
     base = {"parents": par, "joints": js, "level": level, "energy": energy, "integrator": integ}
     tag = "parents=%s joints=%s level=%s energy=%d integrator=%s" % (par, js, level, energy, integ)
 
@@ -283,40 +332,54 @@ def check_model(lib, part, job):
                                 d1.free()
                                 d2.free()
         # ------------------------------------------------------------------ D, E
-        for e in inp.edits:
-            for ws_disabled in (1, 0):
-                d = new_state(fac, inp, q, v)
-                dref = new_state(fac, inp, q, v)
-                flags0 = int(m.opt.disableflags)
-                try:
-                    if ws_disabled:
-                        m.opt.disableflags = flags0 | DSBL_WARMSTART
-                    if d.qacc_warmstart.size:
-                        d.qacc_warmstart[:] = inp.qacc[1]
-                        dref.qacc_warmstart[:] = inp.qacc[1]
-                    inp.apply(d, e)
-                    inp.apply(dref, e)
-                    s0 = np.full(nstate + 1, np.nan)
-                    s1 = np.full(nstate + 1, np.nan)
-                    lib.mj_getState(m, d, s0, E.INTEGRATION)
-                    hc(d, "forward")
-                    lib.mj_getState(m, d, s1, E.INTEGRATION)
-                    part.count(1)
-                    part["nontrivial_count"] += 1
-                    if s0.tobytes() != s1.tobytes():
-                        idx = int(np.nonzero(s0.view(np.uint64) != s1.view(np.uint64))[0][0])
-                        viol("D forward modifies integration state", ["state[%d]" % idx],
-                             "mj_forward changed element %d of the INTEGRATION state vector" % idx, edit=e, **rep0)
-                    hc(dref, "forward")
-                    hc(d, "forward")
-                    dl = cmp.diff(m, d, dref)
-                    if dl:
-                        viol("E forward;forward vs forward (warmstart %s)" % ("disabled" if ws_disabled else "enabled"), dl,
-                             "second mj_forward changed results", edit=e, warmstart_disabled=ws_disabled, **rep0)
-                finally:
-                    m.opt.disableflags = flags0
-                    d.free()
-                    dref.free()
+        for qn in (QUAT_NORMS if qslots else QUAT_NORMS[:1]):
+            # quick: the non-unit classes with the three 'diagonal' edits (the quaternion norm and the edits of later-stage
+            # inputs are independent dimensions); thorough: the full product
+            for e in (inp.edits if (thorough or qn == "unit") else DIAG_EDITS):
+                for ws_disabled in (1, 0):
+                    d = new_state(fac, inp, q, v)
+                    dref = new_state(fac, inp, q, v)
+                    flags0 = int(m.opt.disableflags)
+                    try:
+                        if ws_disabled:
+                            m.opt.disableflags = flags0 | DSBL_WARMSTART
+                        if d.qacc_warmstart.size:
+                            d.qacc_warmstart[:] = inp.qacc[1]
+                            dref.qacc_warmstart[:] = inp.qacc[1]
+                        denormalise(d, qslots, qn)
+                        denormalise(dref, qslots, qn)
+                        inp.apply(d, e)
+                        inp.apply(dref, e)
+                        s0 = np.full(nstate + 1, np.nan)
+                        s1 = np.full(nstate + 1, np.nan)
+                        lib.mj_getState(m, d, s0, E.INTEGRATION)
+                        w0 = lib.warning_count()
+                        hc(d, "forward")
+                        lib.mj_getState(m, d, s1, E.INTEGRATION)
+                        part.count(1, sample=dict(base, oracle="D", quat_norm=qn, edit=e, **rep0)
+                                   if (si == 0 and qn == "nonunit" and e == (1, 1, 1) and ws_disabled) else None)
+                        part["nontrivial_count"] += 1
+                        if qn != "unit":
+                            part.add("DE_%s_quaternion_cases" % qn)
+                        if s0.tobytes() != s1.tobytes():
+                            idx = int(np.nonzero(s0.view(np.uint64) != s1.view(np.uint64))[0][0])
+                            comp = state_component(lib, m, idx)
+                            viol("D forward modifies integration state", [comp.split("[")[0]],
+                                 "mj_forward changed element %d (%s) of the INTEGRATION state vector: %r -> %r (state quaternions %s)"
+                                 % (idx, comp, float(s0[idx]), float(s1[idx]), qn), edit=e, quat_norm=qn, **rep0)
+                        hc(dref, "forward")
+                        hc(d, "forward")
+                        if qn != "unit" and lib.warning_count() != w0:
+                            part.add("DE_warning_with_denormalised_quaternion")
+                        dl = cmp.diff(m, d, dref)
+                        if dl:
+                            viol("E forward;forward vs forward (warmstart %s)" % ("disabled" if ws_disabled else "enabled"), dl,
+                                 "second mj_forward changed results (state quaternions %s)" % qn, edit=e,
+                                 warmstart_disabled=ws_disabled, quat_norm=qn, **rep0)
+                    finally:
+                        m.opt.disableflags = flags0
+                        d.free()
+                        dref.free()
     m.free()
 
 
@@ -368,8 +431,10 @@ def run(ctx):
                 "and RK4} x (%d configurations x "
                 "{zero, mixed} velocity) x oracles A (27 edits x 2 rounds), B (stage NONE/POS/VEL x skipsensor 0/1 x 27 edits "
                 "x {only later-stage inputs edited, also qvel (and qpos for NONE)}), C (same with 3 qacc x 3 xfrc), D, E (27 edits x "
-                "warm start disabled/enabled). non-trivial = at least one input really edited and, for B/C, a stage really skipped"
-                % (ctx.q(3, 4), M.C04_MENU, len(M.c04_kinematics(ctx.q(3, 4))), ctx.q(2, 4)))
+                "warm start disabled/enabled; for models with ball/free joints or mocap bodies additionally x state-quaternion norm "
+                "class {unit, non-unit (x1.5/x0.5 alternating), zero}%s). non-trivial = at least one input really edited and, for B/C, a stage really skipped"
+                % (ctx.q(3, 4), M.C04_MENU, len(M.c04_kinematics(ctx.q(3, 4))), ctx.q(2, 4),
+                   ctx.q(", the two non-unit classes with the 3 diagonal edits (0,0,0),(1,1,1),(2,2,2)", ", all 27 edits")))
     ctx.assumptions = ["sleep disabled (documented to break the stage assumptions)", "no control callback installed",
                        "reference for skipsensor=1 is the full call with skipsensor=1",
                        "dead arena memory filled with the same byte in both objects so that allocated-but-unwritten arena "
